@@ -538,6 +538,25 @@ def rule_discarded_results(ctx, R="C11/discarded-results"):
                     seen.add(key)
                     ctx.check(why is not None, R, key, b.where(bi), "reviewed: %s" % why,
                               "the Result of %s is consumed by %s() in %s: its error is dropped, a failure here looks like an empty success and is reported nowhere" % (key[1], cons, fk))
+    # the same thing spelled point-free: `iter.map_while(Result::ok)`, `.filter_map(Result::ok)`, `.flat_map(Result::ok)` hand every
+    # item's error to a swallower passed as a function item
+    for f in sorted(reach):
+        if "_serde" in f:
+            continue
+        for b in prog.by_short.get(f, ()):
+            for bi, t in b.calls():
+                for a in t.get("args", []):
+                    fn = a.get("fn") if isinstance(a, dict) and a.get("k") == "const" else None
+                    if not fn or not fn.startswith("std::result::Result::<") or fn.split("::")[-1] not in SWALLOWERS:
+                        continue
+                    n_sw += 1
+                    fk = "::".join(f.split("::{closure")[0].split("::")[-2:])
+                    adaptor = (CalleeView(t["callee"]).short or "?").split("::")[-1]
+                    key = (fk, adaptor, "fn:" + fn.split("::")[-1])
+                    why = REVIEWED_DISCARDS.get(key)
+                    seen.add(key)
+                    ctx.check(why is not None, R, key, b.where(bi), "reviewed: %s" % why,
+                              "%s(Result::%s) in %s drops the error of every item it is applied to: a failure here (an unreadable line, a failed entry) looks like the end of the data and is reported nowhere" % (adaptor, fn.split("::")[-1], fk))
     ctx.floor(R, "Result-returning calls on the dump path", n_calls, 200)
     ctx.floor(R, "reviewed discards found", n_sw, 8)
     stale = [k for k in REVIEWED_DISCARDS if k not in seen]
